@@ -447,6 +447,24 @@ fn main() {
                 }
                 _ => "bad-op".to_string(),
             },
+            // what src/bin/aisparser.rs prints for this line (decode on), with the library's own formatters
+            ["R", k, h] => match (k.parse::<usize>(), unhex(h)) {
+                (Ok(k), Some(bs)) => {
+                    while slots.len() <= k {
+                        slots.push(AisParser::new());
+                    }
+                    let p = &mut slots[k];
+                    match catch_unwind(AssertUnwindSafe(|| p.parse(&bs, true))) {
+                        Err(_) => "panic".to_string(),
+                        Ok(Err(e)) => format!("E {:?}\t{:?}", String::from_utf8_lossy(&bs), e),
+                        Ok(Ok(AisFragments::Complete(s))) => {
+                            format!("O {:?}\t{:?}", String::from_utf8_lossy(&bs), s.message)
+                        }
+                        Ok(Ok(AisFragments::Incomplete(_))) => "-".to_string(),
+                    }
+                }
+                _ => "bad-op".to_string(),
+            },
             _ => "bad-op".to_string(),
         };
         writeln!(out, "{}", ans).unwrap();
